@@ -433,6 +433,10 @@ pub struct ReplayFile {
     pub original_case: Option<Value>,
     #[serde(default)]
     pub how_to_replay: String,
+    /// the failure depends on process-wide state: it reproduces when a fresh
+    /// process executes the runs `from..to` of the seed (the failing run last)
+    #[serde(default, skip_serializing_if = "Option::is_none")]
+    pub process_history: Option<(u64, u64)>,
 }
 
 
